@@ -63,9 +63,31 @@ Definition is_self_closing_start (t : tok) : bool :=
 
 Definition is_nil {A} (l : list A) : bool := match l with [] => true | _ => false end.
 
+(* THE SHAPE ASSUMPTION of the no-panic theorem (TreeInvMain.tree_no_panic_partial): three facts relating the
+   insertion mode to the stack of open elements that the proof takes as a hypothesis on every configuration of
+   the loop instead of deriving them (they need a full grammar of the stack per mode):
+     - in the modes "in head", "in head noscript" and "text" the stack holds at least two elements;
+     - in the mode "in cell" a td or th element is open;
+     - in the mode "in table body", when the (html5ever) test of the <caption>/<col>/.../</table> arm succeeds,
+       a tbody / tfoot / thead / template element is open.
+   [ptc_iter] evaluates it on every iteration and logs a marker (pseudo arm 31.0) when it fails, so that every
+   correspondence run doubles as a test of the assumption. *)
+Definition is_mode (m m' : imode) : bool := mode_eqb m m'.
+Definition hshape_b (s : st) : bool :=
+  (if is_mode (mode s) InHead || is_mode (mode s) InHeadNoscript || is_mode (mode s) Text
+   then Nat.leb 2 (length (open_elems s)) else true) &&
+  (if is_mode (mode s) InCell
+   then existsb (fun x => in_set td_th (ename_of s x)) (open_elems s) else true) &&
+  (if is_mode (mode s) InTableBody && dev_on s 11 &&
+      in_scope s table_scope (fun e => in_set table_outer_body (ename_of s e))
+   then existsb (fun x => in_set (html_names ["tbody"; "tfoot"; "thead"; "template"]%string) (ename_of s x)) (open_elems s)
+   else true).
+
 (* one iteration of the loop: either the TokenSinkResult, or the next token and queue *)
 Definition ptc_iter (t : tok) (more_tokens : list tok) : M (sink_result + tok * list tok) :=
   let should_have_acknowledged_self_closing_flag := is_self_closing_start t in
+  s0 <- get ;;
+  when (negb (hshape_b s0)) (log_arm 31 0) ;;
   foreign <- is_foreign t ;;
   result <- (if foreign then step_foreign t else s <- get ;; step (mode s) t) ;;
   match result with
@@ -122,7 +144,8 @@ Definition or_empty (o : option str) : str := match o with Some x => x | None =>
 Definition conv_attrs (l : list (str * str)) : list dattr :=
   map (fun p => {| d_name := qn_plain (fst p) ; d_value := snd p |}) l.
 
-Definition process_token (tk : token) (line_number : N) : M sink_result :=
+(* the part of process_token before process_to_completion: either the result, or the converted token *)
+Definition pt_prelude (tk : token) (line_number : N) : M (sink_result + tok) :=
   (* current_line is initialised to 1 and never written *)
   when (negb (N.eqb line_number 1)) (emit (OpSetLine line_number)) ;;
   s <- get ;;
@@ -130,7 +153,7 @@ Definition process_token (tk : token) (line_number : N) : M sink_result :=
   (* deviation 1: `ignore_lf.take()` runs before the ParseError early return *)
   modify (set_ignore_lf (match tk with TError => negb (dev_on s 1) && ign | _ => false end)) ;;
   match tk with
-  | TError => parse_error ;; ret SContinue
+  | TError => parse_error ;; ret (inl SContinue)
   | TDoctype name pub sys force_quirks =>
     if mode_eqb (mode s) Initial then
       probe 46 ;;
@@ -141,22 +164,28 @@ Definition process_token (tk : token) (line_number : N) : M sink_result :=
            (emit (OpAppendDoctype (or_empty name) (or_empty pub) (or_empty sys))) ;;
       do_set_quirks quirk ;;
       set_mode_m BeforeHtml ;;
-      ret SContinue
-    else probe 47 ;; parse_error ;; ret SContinue
+      ret (inl SContinue)
+    else probe 47 ;; parse_error ;; ret (inl SContinue)
   | TTag k name self_closing attrs had_dup =>
-    process_to_completion
-      (KTag {| tg_kind := k ; tg_name := name ; tg_self := self_closing ; tg_attrs := conv_attrs attrs ;
-               tg_dup := had_dup |})
-  | TComment x => process_to_completion (KComment x)
-  | TNull => process_to_completion KNull
-  | TEof => process_to_completion KEof
+    ret (inr (KTag {| tg_kind := k ; tg_name := name ; tg_self := self_closing ; tg_attrs := conv_attrs attrs ;
+                      tg_dup := had_dup |}))
+  | TComment x => ret (inr (KComment x))
+  | TNull => ret (inr KNull)
+  | TEof => ret (inr KEof)
   | TChars x =>
     let x' := match x with c :: r => if ign && N.eqb c 0x0A then r else x | [] => x end in
     when (negb (Nat.eqb (length x') (length x))) (probe 45) ;;
     match x' with
-    | [] => ret SContinue
-    | _ :: _ => process_to_completion (KChars NotSplit x')
+    | [] => ret (inl SContinue)
+    | _ :: _ => ret (inr (KChars NotSplit x'))
     end
+  end.
+
+Definition process_token (tk : token) (line_number : N) : M sink_result :=
+  r <- pt_prelude tk line_number ;;
+  match r with
+  | inl res => ret res
+  | inr t => process_to_completion t
   end.
 
 (* TokenSink::end (mod.rs:546-550) *)
@@ -188,7 +217,8 @@ Definition arm_counts : list (nat * nat) :=
     (mode_id AfterBody, length heads_after_body); (mode_id InFrameset, length heads_in_frameset);
     (mode_id AfterFrameset, length heads_after_frameset); (mode_id AfterAfterBody, length heads_after_after_body);
     (mode_id AfterAfterFrameset, length heads_after_after_frameset); (foreign_id, length heads_foreign);
-    (30, 54) (* helper probes, TreeModelHelpers.probe *) ].
+    (30, 54) (* helper probes, TreeModelHelpers.probe *);
+    (31, 1) (* 31.0 = the shape assumption failed (must stay uncovered) *) ].
 
 (* ---------- running ---------- *)
 Definition take_out (s : st) : list event * st := (rev (out s), set_out [] s).
